@@ -14,7 +14,7 @@ C17.write   : parsers and AST emitters reach no write sink; commands write only 
 import ast
 
 from ..charset import TOP, CharsetInterp, show
-from ..core import RefGraph, short
+from ..core import RefGraph, iter_own, short
 from ..defuse import param_roots
 from ..effects import OPEN_NAMES, Effects, open_mode_arg
 from ..walker import GuardWalker
@@ -183,6 +183,56 @@ def closed_constant(e):
     return True
 
 
+def closed_constant_name(e, site):
+    """
+    a bare name every binding of which — in the function (or module body) the sink sits in — is an assignment from a
+    closed constant, tuple unpacking included: `m, f = ("astor", "to_source") if version_info[:2] < (3, 9) else ("ast", "unparse")`
+    """
+    if not isinstance(e, ast.Name):
+        return False
+    scope = site.func.node if site.func is not None else site.mod.tree
+    own = iter_own(scope) if site.func is not None else _module_level(scope)
+    n_binds = 0
+    for st in own:
+        if isinstance(st, (ast.Assign, ast.AnnAssign, ast.AugAssign, ast.NamedExpr, ast.For, ast.comprehension, ast.withitem, ast.Import, ast.ImportFrom, ast.ExceptHandler, ast.FunctionDef, ast.ClassDef, ast.Global, ast.Nonlocal)):
+            if isinstance(st, ast.Assign):
+                names = {x.id for t in st.targets for x in ast.walk(t) if isinstance(x, ast.Name)}
+                if e.id in names:
+                    if not closed_constant(st.value):
+                        return False
+                    n_binds += 1
+            else:
+                bound = set()
+                for fld in ("target", "optional_vars"):
+                    t = getattr(st, fld, None)
+                    if t is not None:
+                        bound |= {x.id for x in ast.walk(t) if isinstance(x, ast.Name)}
+                if isinstance(st, (ast.Import, ast.ImportFrom)):
+                    bound |= {(a.asname or a.name).partition(".")[0] for a in st.names}
+                if isinstance(st, (ast.FunctionDef, ast.ClassDef)):
+                    bound.add(st.name)
+                if isinstance(st, ast.ExceptHandler) and st.name:
+                    bound.add(st.name)
+                if isinstance(st, (ast.Global, ast.Nonlocal)):
+                    bound |= set(st.names)
+                if e.id in bound:
+                    return False
+    if site.func is not None and e.id in site.func.params:
+        return False
+    return n_binds > 0
+
+
+def _module_level(tree):
+    """nodes of a module body that run at import time (function and class bodies left out, their headers kept)"""
+    stack = list(tree.body)
+    while stack:
+        n = stack.pop()
+        yield n
+        if isinstance(n, (ast.FunctionDef, ast.AsyncFunctionDef, ast.Lambda)):
+            continue
+        stack.extend(ast.iter_child_nodes(n))
+
+
 def is_dispatch(e, leaf):
     """`".".join(("cdd", <kind expr>, "<leaf>"))`"""
     if not (
@@ -337,6 +387,9 @@ def run(ctx):
             if e.sub == "import" and arg is not None and closed_constant(arg):
                 ok = True
                 kind = "constant"
+            elif e.sub == "import" and arg is not None and closed_constant_name(arg, e):
+                ok = True
+                kind = "constant (a name bound only to closed constants where the sink sits)"
             elif e.sub == "import" and just is None and _only_constant_callers(index, graph, e, closed_constant):
                 ok = True
                 kind = "constant (bare parameter of a private helper that is only ever called with closed constants)"
